@@ -55,6 +55,10 @@ func CSSRule(selector string, style Style) (StyleSheet, error) {
 	if matches := invalidCSSSelectorRune.FindStringSubmatch(selectorWithoutStrings); matches != nil {
 		return StyleSheet{}, fmt.Errorf("selector %q contains %q, which is disallowed outside of CSS strings", selector, matches[0])
 	}
+	if strings.Contains(strings.ToLower(selectorWithoutStrings), "url(") {
+		// Inside an unquoted url( token, quotes do not delimit CSS strings.
+		return StyleSheet{}, fmt.Errorf("selector %q contains \"url(\", which is disallowed outside of CSS strings", selector)
+	}
 	if !hasBalancedBrackets(selectorWithoutStrings) {
 		return StyleSheet{}, fmt.Errorf("selector %q contains unbalanced () or [] brackets", selector)
 	}
